@@ -671,6 +671,24 @@ class Interp:
             spec = self.reg["classes"].get(c)
             if spec is not None and attr in spec.fields:
                 return fresh(spec.fields[attr], f"{obj.cls}.{attr}", st, self)
+        # an attribute without a sidecar type: take the type of the literal (or annotation) its constructor assigns
+        for c in (self.repo.mro(obj.cls) or []):
+            init = self.repo.classes[c].methods.get("__init__")
+            for node in (ast.walk(init) if init is not None else []):
+                tgt = val = ann = None
+                if isinstance(node, ast.Assign) and len(node.targets) == 1:
+                    tgt, val = node.targets[0], node.value
+                elif isinstance(node, ast.AnnAssign):
+                    tgt, val, ann = node.target, node.value, ast.unparse(node.annotation)
+                if isinstance(tgt, ast.Attribute) and isinstance(tgt.value, ast.Name) and tgt.value.id == "self" and \
+                        self.mangle(tgt.attr, c) == attr:
+                    t = None
+                    if isinstance(val, ast.Constant):
+                        t = {bool: "bool", int: "int", float: "real", str: "str"}.get(type(val.value))
+                    if t is None and ann in ("bool", "int", "float", "str"):
+                        t = {"float": "real"}.get(ann, ann)
+                    if t is not None:
+                        return fresh(t, f"{obj.cls}.{attr}", st, self)
         raise Unsupported(f"field {obj.cls}.{attr} has no declared type in the sidecar class spec")
 
     def opaque_attr(self, base: Opaque, attr, st):
